@@ -423,6 +423,13 @@ def gather_inputs(ctx, pid, n_gen, decorated_share=0.6, density=(0.05, 0.4), lin
     dims["shape_programs"] = len(shp)
     dims["shape_programs_not_lexed"] = n_shape_bad
     dims["shape_x_placeholder_programs"] = n_shape
+    # ---- runs of 0..8 empty / blank-only / tab-only lines at every place where text passes through verbatim or
+    # through the empty-line squeezing (gen/fmt_blank): exhaustive
+    from gen import fmt_blank
+    brows = fmt_blank.programs()
+    for lab, text in brows:
+        items.append({"label": lab, "src": text.encode(), "origin": "blank"})
+    dims["blank_line_run_programs"] = len(brows)
     dims["hostile_text_per_placeholder_programs"] = n_h
     dims["hostile_text_condition_template_programs"] = n_hc
     dims["hostile_text_classes"] = body_stats
@@ -599,6 +606,10 @@ def _cube(names):
 BOOL_CUBES = _cube(["explicit_string_concat", "else_if", "return_statement_parenthesis", "should_use_unset",
                     "break_compound_conditions"]) + \
     _cube(["sort_declaration", "sort_declaration_property", "align_declaration_property", "align_trailing_comment"])
+BLANK_CONFS = [("default", {}), ("align+tab+sharp", {"align_trailing_comment": True, "indent_style": "tab", "comment_style": "sharp",
+                                                       "trailing_comment_width": 3, "align_declaration_property": True}),
+               ("sort+sortprop+narrow+slash", {"sort_declaration": True, "sort_declaration_property": True, "line_width": 30,
+                                               "comment_style": "slash", "indent_width": 4})]
 SCALE_CONFS = [("default", {}), ("unlimited+juxtaposed", {"line_width": -1, "explicit_string_concat": False}),
                ("tab+align+sort+no-break+narrow", {"indent_style": "tab", "align_trailing_comment": True, "line_width": 40,
                                                    "sort_declaration_property": True, "break_compound_conditions": False,
@@ -639,6 +650,8 @@ def plan_pairs(ctx, items, n_random):
             confs += COND_CONFS
         elif o == "scale":
             confs += SCALE_CONFS
+        elif o == "blank":
+            confs += BLANK_CONFS
         elif o == "shape":
             alt = (SLOT_CONFS[1:] + COND_CONFS[1:])
             confs += [("default", {}), alt[len(pairs) % len(alt)]]
